@@ -1364,6 +1364,45 @@ func c08CheckLong(c c08LongCase) engine.Result {
 				}
 			}
 		}
+	case "descriptor-mixtures":
+		// every descriptor loop of 1..4 descriptors over a 7-letter alphabet; c.From encodes the letters base 8
+		// (0 = end). Foreign descriptors of 4, 20 and 60 bytes (pairwise different content), segmentation
+		// descriptors without upid, with an 8-byte upid, with a 30-byte ADI text, with a MID of two entries.
+		mk := func(letter, pos int) ref.S35Desc {
+			body := func(n int, base byte) []byte {
+				b := make([]byte, n)
+				for i := range b {
+					b[i] = base + byte(i*3+pos*17)
+				}
+				return b
+			}
+			seg := ref.S35Seg{EventID: uint32(0x100 + pos), Program: true, NotRestricted: true, TypeID: 0x30, SegNum: 1, SegsExpected: 1}
+			switch letter {
+			case 1:
+				return ref.S35Desc{Tag: 0x00, Identifier: ref.S35CUEI, Body: body(4, 0xA0)}
+			case 2:
+				return ref.S35Desc{Tag: 0x01, Identifier: ref.S35CUEI, Body: body(20, 0xB0)}
+			case 3:
+				return ref.S35Desc{Tag: 0xF0, Identifier: 0x41424344, Body: body(60, 0xC0)}
+			case 4:
+			case 5:
+				seg.UPIDType, seg.UPID = 0x08, body(8, 0x30)
+			case 6:
+				seg.UPIDType, seg.UPID = 0x09, body(30, 0x41)
+			default:
+				seg.UPIDType = 0x0D
+				seg.MID = []ref.S35UPID{{Type: 0x08, Data: body(8, 0x50)}, {Type: 0x09, Data: body(12, 0x61)}}
+			}
+			return ref.S35Desc{IsSeg: true, Tag: 0x02, Identifier: ref.S35CUEI, Seg: seg}
+		}
+		sec := ref.S35Canonical()
+		sec.CmdType = ref.S35CmdTime
+		sec.Time = ref.S35Time{Specified: true, PTS: 0x123456789}
+		for v, pos := c.From, 0; v > 0; v, pos = v/8, pos+1 {
+			sec.Descs = append(sec.Descs, mk(v%8, pos))
+		}
+		res.Nontrivial++
+		c08CheckDecode(&res, &sec, false)
 	case "section-length":
 		for t := c.From; t <= c.To; t++ {
 			sec, ok := c08SectionOfLength(t)
@@ -1605,6 +1644,26 @@ func init() {
 					}
 				},
 				Check: c08CheckLong, Batch: 4,
+			},
+			&engine.Enum[c08LongCase]{
+				Name: "descriptor-mixtures",
+				Rule: "EVERY descriptor loop of 1..4 descriptors over {foreign of 4 / 20 / 60 bytes (different tags, one with a foreign identifier), segmentation without upid / with an 8-byte upid / with a 30-byte ADI text / with a MID of two entries} behind a time_signal (2800 loops: every order of foreign and segmentation descriptors, long foreign bodies behind and in front of identifiers): decode and compare every getter as in decode-fields",
+				Gen: func(r *engine.Run, emit func(c08LongCase)) {
+					var rec func(v, mul, depth int)
+					rec = func(v, mul, depth int) {
+						if depth > 0 {
+							emit(c08LongCase{Kind: "descriptor-mixtures", From: v})
+						}
+						if depth == 4 {
+							return
+						}
+						for l := 1; l <= 7; l++ {
+							rec(v+l*mul, mul*8, depth+1)
+						}
+					}
+					rec(0, 1, 0)
+				},
+				Check: c08CheckLong, Batch: 16,
 			},
 			&engine.Enum[c08LongCase]{
 				Name: "accumulated-delivery",
